@@ -1,6 +1,115 @@
 (** C09 — Initial CRYPTO framing always carries the complete ClientHello at true offsets.
-    Only statements live here; each is closed by [exact] of a lemma proved elsewhere. *)
-From Coq Require Import List ZArith.
-From V Require Import Gen.Params UFrames.Model.
+    Only statements live here; each is closed by [exact] of a lemma proved elsewhere.
+
+    Reading guide.  [exact_cover data base ws]: the CRYPTO frames of the wire-frame list [ws]
+    are, in some order, consecutive ranges starting at [base] whose bytes concatenate to
+    [data] — they partition [base, base+|data|) and carry the true bytes.  [res]: [Ok], an
+    error class [Err c], or [Panic] (a Go run-time panic).  [bs] is the byte stream
+    crypto/rand.Reader yields, [us] the uint32 stream of math/rand's global source: the
+    theorems hold for ALL their values. *)
+From Coq Require Import List ZArith Permutation.
+From V Require Import Gen.Params Lib.Hex Wire.Varint UFrames.Model UFrames.ProofsBase UFrames.Proofs UFrames.ProofsFlight.
 Import ListNotations.
 Open Scope Z_scope.
+
+(** QUICFrames.Build / BuildForDatagram on any layout that tiles its slice (its CRYPTO frames,
+    in some order, are consecutive from 0 to |data|, Length = 0 meaning "the rest"; PADDING
+    lengths non-negative): succeeds, and the emitted CRYPTO frames partition
+    [base, base+|data|) with the true bytes. *)
+Theorem C09_quicframes_tiling : forall data base qfs,
+  0 <= base -> base + zlen data <= maxVarInt8 -> tiles (zlen data) qfs ->
+  build data base qfs = Ok (map (wire data base) qfs)
+  /\ exact_cover data base (map (wire data base) qfs)
+  /\ wpads_ok (map (wire data base) qfs).
+Proof. exact build_tiling. Qed.
+Print Assumptions C09_quicframes_tiling.
+
+Example C09_quicframes_tiling_nonvacuous : tiles 3 [FCrypto 1 0; FPing; FPad 2; FCrypto 0 1].
+Proof. exact tiles_example. Qed.
+Print Assumptions C09_quicframes_tiling_nonvacuous.
+
+(** Outside the property's quantifier, for the record: a layout that does not tile its slice
+    yields a zero-extended ClientHello or a Go panic. *)
+Theorem C09_quicframes_nontiling_refuted :
+  build [10; 20; 30] 0 [FCrypto 0 5] = Ok [WCrypto 0 [10; 20; 30; 0; 0]]
+  /\ build [10; 20; 30] 0 [FCrypto 0 1; FCrypto 5 0] = Panic.
+Proof. exact (conj build_nontiling_zero_extends build_nontiling_panics). Qed.
+Print Assumptions C09_quicframes_nontiling_refuted.
+
+(** QUICRandomFrames.buildInternal (Build and BuildForDatagram), for every parameterisation in
+    the fields' ranges, every ClientHello slice and base offset that stay encodable, and every
+    value of both randomness oracles: never a panic; an error exactly of the class of the failed
+    bounds check, or the oracle's own failure; otherwise CRYPTO frames that partition
+    [base, base+|data|) with the true bytes. *)
+Theorem C09_random_frames_exact : forall p data base bs us,
+  rf_wf p -> 0 <= base -> base + zlen data <= maxVarInt8 ->
+  match build_internal p data base bs us with
+  | Ok (ws, _, _) => exact_cover data base ws /\ wpads_ok ws
+  | Err c => check_bounds p = Err c \/ (check_bounds p = Ok tt /\ (c = 6 \/ c = 90))
+  | Panic => False
+  end.
+Proof. exact build_internal_exact. Qed.
+Print Assumptions C09_random_frames_exact.
+
+Example C09_random_frames_nonvacuous : rf_wf (mkRF 0 3 1 4 1 3 1200).
+Proof. exact rf_wf_example. Qed.
+Print Assumptions C09_random_frames_nonvacuous.
+
+(** QUICMultiDatagramFrames.BuildForDatagram: the same for whichever per-datagram spec is used. *)
+Theorem C09_multidatagram_exact : forall specs idx data base bs us,
+  Forall rf_wf specs -> 0 <= idx -> 0 <= base -> base + zlen data <= maxVarInt8 ->
+  match md_build specs idx data base bs us with
+  | Ok (ws, _, _) => exact_cover data base ws /\ wpads_ok ws
+  | Err c => (specs = [] /\ c = 7) \/ specs <> []
+  | Panic => False
+  end.
+Proof. exact md_build_exact. Qed.
+Print Assumptions C09_multidatagram_exact.
+
+(** QUICCryptoRange.resolve, for ALL integers (Offset, Length) and stream lengths: an error, or
+    bounds with 0 <= start <= end <= n that are the documented ones; an error only when those
+    documented bounds are not inside the stream. *)
+Theorem C09_resolve_total : forall off len n,
+  0 <= n ->
+  match resolve off len n with
+  | Ok (s, e) => 0 <= s <= e /\ e <= n
+                 /\ s = (if off <? 0 then n + off else off)
+                 /\ e = (if 0 <? len then s + len else n + len)
+  | Err c => (c = 9 \/ c = 10)
+             /\ let s := if off <? 0 then n + off else off in
+                let e := if 0 <? len then s + len else n + len in
+                ~ (0 <= s <= e /\ e <= n)
+  | Panic => False
+  end.
+Proof. exact resolve_total. Qed.
+Print Assumptions C09_resolve_total.
+
+(** splitRange, for every non-empty range, all count bounds and every draw: consecutive CRYPTO
+    frames of at least one byte each from start to end; their number within the clamped bounds. *)
+Theorem C09_splitrange_partition : forall s e minN maxN bs,
+  0 <= s < e -> e < 2 ^ 62 -> 0 <= minN -> maxN < 2 ^ 32 ->
+  match split_range s e minN maxN bs with
+  | Ok (fs, _) => pchain s fs e
+                  /\ 1 <= zlen fs <= e - s
+                  /\ Z.min (Z.max minN 1) (e - s) <= zlen fs <= Z.max (Z.max minN (maxN - 1)) 1
+  | Err c => c = 6
+  | Panic => False
+  end.
+Proof. exact split_range_partition. Qed.
+Print Assumptions C09_splitrange_partition.
+
+(** QUICFlightFrames and QUICRandomFlightFrames (BuildFlight and Build), for ANY plan — negative
+    offsets and lengths included —, any parameters and any draws: every CRYPTO frame of every
+    datagram lies inside the stream and carries the stream's own bytes at its absolute offset
+    (no shifted or zero-extended range).  Completeness of the cover is what
+    validateInitialFlight checks afterwards (see notes: OPEN C09_flight_validated_complete). *)
+Theorem C09_flight_true_bytes_partial : forall full,
+  (forall dgs first wss, flight_frames dgs first full = Ok wss ->
+     Forall (fun ws => Forall (true_frame full) (wcryptos ws) /\ wpads_ok ws) wss)
+  /\ (forall dgs first bs us wss bs' us', rff_build dgs first full bs us = Ok (wss, bs', us') ->
+     Forall (fun ws => Forall (true_frame full) (wcryptos ws) /\ wpads_ok ws) wss).
+Proof.
+  exact (fun full => conj (fun dgs first wss => flight_frames_true dgs first full wss)
+                          (fun dgs first bs us wss bs' us' => rff_build_true dgs first full bs us wss bs' us')).
+Qed.
+Print Assumptions C09_flight_true_bytes_partial.
